@@ -32,7 +32,7 @@ Qed.
 Theorem resource_view_bars : forall s m, effective_mode s m = GResource ->
   gantt_bars s m = flat_map (fun '(i, r) => map (fun '(t, a, b) => draw_bar i a (b - a) (show_task t)) (rs_assignments r))
                             (indexed 0 (so_resources s))
-  /\ gantt_labels s m = map rs_name (so_resources s).
+  /\ gantt_labels s m = map (fun r => resobj_name (rs_name r)) (so_resources s).
 Proof. intros s m H. unfold gantt_bars, gantt_labels. rewrite H. split; reflexivity. Qed.
 
 Theorem resource_view_one_bar_per_assignment : forall s m, effective_mode s m = GResource ->
